@@ -25,7 +25,7 @@ CHECKS = {
          "all reachable states of three alphabets; in each the raw key set equals that of a database freshly built with the same logical content, Count equals the number of documents, every index answers like a scan",
          "states are raw store contents (DESIGN 3.5); layout-agnostic audit (DESIGN 3.5a)"),
  "C07": ("model_checking", "stateless exploration of every schedule of the real DB under a cooperative scheduler (preemption-bounded DFS) + linearizability check (porcupine)",
-         "every interleaving of 2-3 goroutines in 16 colliding scenarios on both backends at operation/commit granularity (unbounded), at every store call with <= 2 preemptions (thorough); each history must be linearizable w.r.t. the reference model and leave a consistent raw state",
+         "every interleaving of 2-3 goroutines in 18 colliding scenarios on both backends at operation/commit granularity (unbounded), at every store call with <= 2 preemptions (thorough); each history must be linearizable w.r.t. the reference model and leave a consistent raw state",
          "isolation of uncommitted work by the stores justifies the reduced point set (defended by the every-call mode); data races are left to a separate sampling -race pass; the badger+index write skew is a recorded known finding"),
  "C08": ("exploration", "exhaustive sort-option x skip/limit grid on index twins of the real DB against the reference order",
          "every sort list / direction / window / criteria combination of the grid: returned sort-key tuples equal the reference window",
